@@ -453,6 +453,17 @@ func c15Keys(c *core.Ctx, pkg *packages.Package) {
 						}
 					}
 				}
+			} else if ok && len(as.Rhs) == 1 && len(as.Lhs) == 2 {
+				// v, err := f(…) / v, err = f(…): v is the first result of the call
+				if id, ok := as.Lhs[0].(*ast.Ident); ok {
+					obj := info.Defs[id]
+					if obj == nil {
+						obj = info.Uses[id]
+					}
+					if obj != nil {
+						def[obj] = as.Rhs[0]
+					}
+				}
 			}
 			return true
 		})
@@ -486,6 +497,25 @@ func c15Keys(c *core.Ctx, pkg *packages.Package) {
 			case *ast.CallExpr:
 				if cal := core.Callee(info, x); cal != nil && (cal.Name() == "dataKey" || cal.Name() == "indexKey") && core.RecvTypeName(cal) == "IndexedStore" {
 					good = true
+					// the value part of an index key is the index's ValueOf(object) — the value function plus, for a non-unique
+					// index, the object's id — in every writer and remover alike (putTx, DeleteTx, RebuildTx)
+					if cal.Name() == "indexKey" && len(x.Args) == 2 {
+						v := ast.Unparen(x.Args[1])
+						if id, ok := v.(*ast.Ident); ok {
+							if d, ok := def[info.Uses[id]]; ok {
+								v = ast.Unparen(d)
+							}
+						}
+						src := ""
+						if vc, ok := v.(*ast.CallExpr); ok {
+							if g := core.Callee(info, vc); g != nil {
+								src = g.Name()
+							} else if sl, ok := vc.Fun.(*ast.SelectorExpr); ok {
+								src = sl.Sel.Name
+							}
+						}
+						c.Check(src == "ValueOf", "C15.keys", f.Decl.Name.Name+"#index-value:"+types.ExprString(x.Args[1]), x.Pos(), "the value part of the index key is %s (from %q); every index key must be built from Index.ValueOf(object): a key built from the raw value function lacks the /<id> suffix of non-unique indexes, so entries written here are neither replaced nor removed by the other operations (objects listed twice, `no key exists` after a delete)", types.ExprString(v), src)
+					}
 				}
 			case *ast.SelectorExpr:
 				if x.Sel.Name == "Key" {
